@@ -23,7 +23,8 @@ RULE = (
     "arbitrary unicode text) are parsed by an independent SVG 1.1 BNF parser (maximal munch) and by picosvg; "
     "if the reference accepts, picosvg must return the same exploded sequence or raise ValueError; no other "
     "exception type may escape on any string. roundtrip: command sequences with arbitrary finite floats "
-    "(subnormal, huge, -0.0, beyond 2**53) are serialised by SVGPath.from_commands and re-parsed. "
+    "(subnormal, huge, -0.0, beyond 2**53; arc radii of either sign; in a quarter of the cases commands carrying 2-3 argument "
+    "sets, i.e. the non-exploded form, with H/V favoured) are serialised by SVGPath.from_commands and re-parsed, exploded and non-exploded. "
     "Non-trivial = reference-accepted string that picosvg also parsed (so the sequences were compared) with an adjacency feature (no separator between numbers, leading "
     "zero, leading/trailing dot, exponent, glued arc flag, implicit repeat) or, for roundtrip, a sequence "
     "containing a float whose str() uses an exponent, is subnormal, is >= 2**53 or is -0.0. Distinct = distinct "
@@ -357,6 +358,34 @@ def check_roundtrip(case) -> Result:
         return r
     r.nontrivial = any(isinstance(a, float) and _special(a) for _, args in cmds for a in args)
     r.classes = tuple(sorted({c for c, _ in cmds}))
+    grouped = any(len(a) > NARGS[c.lower()] for c, a in cmds)
+    if grouped:
+        # a command may carry several argument sets (the non-exploded form the parser itself returns):
+        # printed and parsed back non-exploded it is the same sequence; exploded it is the documented
+        # expansion (the letter repeated, a moveto followed by implicit linetos)
+        r.classes += ("grouped",)
+        if any(c.lower() in "hv" and len(a) > 1 for c, a in cmds):
+            r.classes += ("grouped-hv",)
+        try:
+            back_g = list(parse_svg_path(d, exploded=False))
+        except Exception as e:
+            r.bad("roundtrip-raises", f"non-exploded parse of the serialisation of {cmds!r} raised {type(e).__name__}: {e}")
+            return r
+        m = _same(cmds, back_g)
+        if m:
+            r.bad("roundtrip-differs", f"parse_svg_path(exploded=False): {cmds!r} -> d={d!r} -> {back_g!r}: {m}")
+            r.info = {"d": d}
+            return r
+        flat = []
+        for c, a in cmds:
+            n = NARGS[c.lower()]
+            cur = c
+            for i in range(0, max(len(a), 1), max(n, 1)):
+                flat.append((cur, tuple(a[i : i + n])))
+                cur = {"M": "L", "m": "l"}.get(cur, cur)
+        cmds = flat
+    if any(c.lower() == "a" and (a[0] < 0 or a[1] < 0) for c, a in cmds):
+        r.classes += ("negative-radius",)
     for name, b in (("parse_svg_path", back), ("iter(SVGPath)", back2)):
         m = _same(cmds, b)
         if m:
@@ -364,6 +393,10 @@ def check_roundtrip(case) -> Result:
             r.info = {"d": d}
             break
     else:
+        if "negative-radius" in r.classes:
+            # the SVG 1.1 BNF spells arc radii as nonnegative-number: the printed string is outside the
+            # reference grammar by construction; the property only demands the round trip (judged above)
+            return r
         # the reference grammar must accept what picosvg prints, with the same meaning
         try:
             ref = ref_parse(d)
@@ -393,13 +426,26 @@ def cmd_seq(draw):
     # exploded sequences the parser can return: first is a moveto; an "L" directly after
     # "M" would be re-read as implicit lineto and still be "L" -> equal
     letters = "MmLlHhVvCcSsQqTtAaZz"
+    grouped = draw(st.integers(0, 3)) == 0
+    neg_radii = draw(st.booleans())
+    if grouped:
+        letters = "MmLlHhVvHhVvCcSsQqTtAaZz"
     for k in range(n + 1):
         c = draw(st.sampled_from("Mm")) if k == 0 else draw(st.sampled_from(letters))
         na = NARGS[c.lower()]
-        if c.lower() == "a":
-            args = [abs(draw(_floats())), abs(draw(_floats())), draw(_floats()), draw(st.integers(0, 1)), draw(st.integers(0, 1)), draw(_floats()), draw(_floats())]
-        else:
-            args = [draw(_floats()) for _ in range(na)]
+        # several argument sets per command letter in about a quarter of the sequences
+        nsets = draw(st.integers(1, 3)) if (grouped and na) else 1
+        args = []
+        for _ in range(nsets):
+            if c.lower() == "a":
+                # "any command sequence ... all finite floats": a radius may be negative (it denotes its
+                # absolute value when drawn, but the round trip must return the number that was given)
+                rx, ry = draw(_floats()), draw(_floats())
+                if not neg_radii:
+                    rx, ry = abs(rx), abs(ry)
+                args += [rx, ry, draw(_floats()), draw(st.integers(0, 1)), draw(st.integers(0, 1)), draw(_floats()), draw(_floats())]
+            else:
+                args += [draw(_floats()) for _ in range(na)]
         out.append([c, args])
     return {"cmds": out}
 
